@@ -72,3 +72,18 @@ Proof.
   assert (EQ : exec e (orc_of l) p st0 = exec e orc p st0) by (apply (exec_ext e p n B); auto).
   rewrite EQ, Q in OK. simpl in OK. apply negb_true_iff in OK. exact OK.
 Qed.
+
+Theorem oob_strict_sound want n p : bounded n p = true -> oob_strict_with want n p = true ->
+  forall (e:env) (orc:nat -> bool), e_query e = false -> e_oob e = true ->
+  want (s_err (exec e orc p st0)) = true /\ s_rewrote (exec e orc p st0) = false.
+Proof.
+  intros B OK e orc Q OOB. unfold oob_strict_with in OK. rewrite forallb_forall in OK.
+  assert (EIN : In e envs).
+  { destruct e as [[] [] []]; simpl; auto 10. }
+  specialize (OK e EIN). rewrite forallb_forall in OK.
+  destruct (all_bits_complete n orc) as (l & Hin & _ & Hk).
+  specialize (OK l Hin). cbv zeta in OK.
+  assert (EQ : exec e (orc_of l) p st0 = exec e orc p st0) by (apply (exec_ext e p n B); auto).
+  rewrite EQ, Q, OOB in OK. simpl in OK.
+  apply andb_true_iff in OK. destruct OK as (M & NR). apply negb_true_iff in NR. split; assumption.
+Qed.
